@@ -731,6 +731,11 @@ class CSSSerializer(object):
                     ans = x.value
                     if hasattr(ans, 'cssText'):  # happens for comments
                         ans = ans.cssText
+                    elif x.type == 'STRING':
+                        # the parser saved the string's value, not the token
+                        ans = helper.string(ans)
+                    elif x.type == 'URI':
+                        ans = helper.uri(ans)
                     return ans
 
                 return rule.atkeyword + ''.join(getstr(x) for x in rule.seq)
